@@ -71,4 +71,19 @@ CHECKS = {
              "programs (9 error families incl. overflow through each pushing opcode class).",
         technique="TLA+ scheduler model; TLC model checking; replay; TLC trace validation",
         ref="DESIGN.md §4 C17"),
+    "C13": dict(
+        category="fault_enumeration",
+        text="Watchdog.tla specifies the poll discipline (Begin/Iter/Poll/End) with the invariants Inv_C13_Rate (never "
+             "more than I iterations of a polled loop without a poll; every poll inside a known polled loop), "
+             "Inv_C13_Latency (a stop answered to the main loop or a type-checker loop ends the analysis at once; a stop "
+             "answered to a copy loop is followed by at most I main-loop iterations, at most I+1 polls and no later "
+             "stage), Inv_C13_Stop (stopped-by-watchdog error, never a layout), Inv_C13_Same (a watchdog that never stops "
+             "does not change the result). TLC checks them on the mirror of the implementation's counters for all small "
+             "loop sizes x intervals x stop points; on the real pipeline one run per (program, interval, poll index k) is "
+             "recorded with the LoopIter hooks and a scripted watchdog and every run is validated by WatchdogTrace.tla.",
+        note="Exhaustive over k up to 120 (quick) / 700 (thorough) polls per (program, interval), stratified beyond; "
+             "programs whose unmonitored result is itself unstable (C02) are excluded from the 'same result' demand.",
+        technique="TLA+ poll-discipline model checked by TLC; fault enumeration over every poll index on the real "
+                  "pipeline with TLC trace validation of the recorded LoopIter/poll events",
+        ref="DESIGN.md §4 C13"),
 }
